@@ -111,6 +111,16 @@ def _reduce_body(body: List[ast.stmt], x: str, kind: str):
                 return None
             mp[tg.id] = sub(s.value)
             continue
+        if isinstance(s, ast.If) and len(s.body) == 1 and len(s.orelse) == 1 and not last \
+                and all(isinstance(b, ast.Assign) and len(b.targets) == 1 and
+                        isinstance(b.targets[0], ast.Name) for b in (s.body[0], s.orelse[0])) \
+                and s.body[0].targets[0].id == s.orelse[0].targets[0].id:
+            # if C: n = A  else: n = B   ==>   n = A if C else B
+            n_ = s.body[0].targets[0].id
+            if n_ == x or n_ in mp or x in _names(s):
+                return None
+            mp[n_] = ast.IfExp(sub(s.test), sub(s.body[0].value), sub(s.orelse[0].value))
+            continue
         if isinstance(s, ast.If) and not s.orelse and len(s.body) == 1 and \
                 isinstance(s.body[0], ast.Continue) and not last:
             if x in _names(s.test):
